@@ -31,6 +31,18 @@ def gen_ir(r):
             falsy = {"int": 0, "float": 0.0, "bool": False, "str": ""}.get(base)
             if falsy is not None and falsy != "":
                 p["default"] = falsy
+    # parameter names with special-looking endings that are ordinary names (only `...kwargs` and `*`-names are special); floats whose repr uses exponent notation
+    renames = {}
+    for n in list(ir["params"]):
+        if r.random() < 0.07:
+            renames[n] = r.choice(["extra_args", "model_args", "n_args", "args_list", "my_kwargs_like", "type_", "self_weight"])
+    if renames:
+        from collections import OrderedDict as _OD
+
+        ir["params"] = _OD((renames.get(n, n) if renames.get(n, n) not in ir["params"] else n, p) for n, p in ir["params"].items())
+    for n, p in ir["params"].items():
+        if r.random() < 0.06:
+            p["typ"], p["default"] = r.choice([("float", 1e+20), ("float", 2.5e+16), ("float", 1e-10), ("Optional[float]", 1e+20), ("float", 123456789.125)])
     # negative numbers (a UnaryOp node in a signature) under scalar and Optional types; True/False under Optional[bool]
     for n, p in ir["params"].items():
         k = r.random()
